@@ -39,6 +39,7 @@ const (
 	decInvariant      = 18
 	decNonWritable    = 24
 	decLocation       = 30
+	decIndex          = 32
 	decBinding        = 33
 	decDescriptorSet  = 34
 )
@@ -51,7 +52,8 @@ var spvModel = map[string]uint32{"vertex": 0, "fragment": 4, "compute": 5}
 
 type c17Fail func(class, detail string)
 
-func c17SPIRV(p *wgen.F5Program, m *ir.Module, ver spirv.Version, fail c17Fail, count func()) {
+// blend maps "entry/io name" to the @blend_src index of a dual-source output (nil: none modelled).
+func c17SPIRV(p *wgen.F5Program, m *ir.Module, ver spirv.Version, fail c17Fail, count func(), blend map[string]int) {
 	b, err, pn := nagax.SPIRV(m, spirv.Options{Version: ver, Debug: true})
 	if err != nil || pn != nil {
 		return
@@ -221,6 +223,7 @@ func c17SPIRV(p *wgen.F5Program, m *ir.Module, ver spirv.Version, fail c17Fail, 
 			cls   uint32
 			loc   int
 			bi    int
+			idx   int
 			flat, nopersp, centroid, sample, invariant bool
 		}
 		var ios []ioVar
@@ -234,7 +237,10 @@ func c17SPIRV(p *wgen.F5Program, m *ir.Module, ver spirv.Version, fail c17Fail, 
 				continue
 			}
 			if cls == scInput || cls == scOutput {
-				v := ioVar{id: id, cls: cls, loc: -1, bi: -1}
+				v := ioVar{id: id, cls: cls, loc: -1, bi: -1, idx: -1}
+				if ix, ok := dec(id, -1, decIndex); ok {
+					v.idx = int(ix)
+				}
 				if l, ok := dec(id, -1, decLocation); ok {
 					v.loc = int(l)
 				}
@@ -275,6 +281,7 @@ func c17SPIRV(p *wgen.F5Program, m *ir.Module, ver spirv.Version, fail c17Fail, 
 		}
 		check := func(io wgen.F5IO, dir string, cls uint32) {
 			var hit *ioVar
+			wantIdx, dual := blend[e.Name+"/"+io.Name]
 			for i := range ios {
 				v := &ios[i]
 				if v.cls != cls {
@@ -285,7 +292,11 @@ func c17SPIRV(p *wgen.F5Program, m *ir.Module, ver spirv.Version, fail c17Fail, 
 						hit = v
 					}
 				} else if v.loc == io.Location && v.bi < 0 {
-					hit = v
+					// the two dual-source outputs share the location and differ by Index: prefer the variable
+					// with the wanted Index, fall back to any variable at the location
+					if hit == nil || (dual && v.idx == wantIdx && hit.idx != wantIdx) || !dual {
+						hit = v
+					}
 				}
 			}
 			tag := io.Builtin
@@ -295,6 +306,14 @@ func c17SPIRV(p *wgen.F5Program, m *ir.Module, ver spirv.Version, fail c17Fail, 
 			if hit == nil {
 				fail(vtag+":io-missing", fmt.Sprintf("%s: no %s variable for %s %s", e.Name, dir, tag, io.Name))
 				return
+			}
+			if io.Builtin == "" && cls == scOutput && e.Stage == "fragment" {
+				if dual && hit.idx != wantIdx {
+					fail(vtag+":blend-src-index", fmt.Sprintf("%s %s %s: @blend_src(%d) output carries Index %d (-1 = no Index decoration)", e.Name, dir, tag, wantIdx, hit.idx))
+				}
+				if !dual && hit.idx > 0 {
+					fail(vtag+":blend-src-index", fmt.Sprintf("%s %s %s: output without @blend_src carries Index %d", e.Name, dir, tag, hit.idx))
+				}
 			}
 			inter := (e.Stage == "fragment" && dir == "in") || (e.Stage == "vertex" && dir == "out")
 			if inter && io.Builtin == "" {
@@ -346,10 +365,24 @@ func hlslClass(kind string) byte {
 }
 
 func c17HLSL(p *wgen.F5Program, m *ir.Module, mapped bool, fail c17Fail, count func()) {
+	c17HLSLEntry(p, m, mapped, "", fail, count)
+}
+
+// c17HLSLEntry: with entry != "", only that entry point is compiled (Options.EntryPoint); the registers of
+// the declared resources must be the same as for the whole module, the entry function must be present and
+// the functions of the other entry points absent.
+func c17HLSLEntry(p *wgen.F5Program, m *ir.Module, mapped bool, entry string, fail c17Fail, count func()) {
 	o := *hlsl.DefaultOptions()
+	o.EntryPoint = entry
 	tag := "hlsl-default"
+	if entry != "" {
+		tag = "hlsl-single-entry-default"
+	}
 	if mapped {
 		tag = "hlsl-mapped"
+		if entry != "" {
+			tag = "hlsl-single-entry-mapped"
+		}
 		o.FakeMissingBindings = false
 		o.BindingMap = map[hlsl.ResourceBinding]hlsl.BindTarget{}
 		for _, r := range p.Resources {
@@ -417,6 +450,15 @@ func c17HLSL(p *wgen.F5Program, m *ir.Module, mapped bool, fail c17Fail, count f
 	for _, e := range p.Entries {
 		if n, ok := names[e.Name]; ok && !fns[n] {
 			fail(tag+":entry-point-name", fmt.Sprintf("reflection maps %s to %s, which is not a function in the text", e.Name, n))
+		}
+		if entry != "" {
+			n, ok := names[e.Name]
+			if e.Name == entry && !ok {
+				fail(tag+":entry-point-name", "no entry-point name reported for the selected entry point "+e.Name)
+			}
+			if e.Name != entry && (fns[e.Name] || ok && fns[n]) {
+				fail(tag+":entry-point-filter", fmt.Sprintf("EntryPoint=%s, but the text also defines %s", entry, e.Name))
+			}
 		}
 	}
 }
@@ -596,8 +638,8 @@ func c17Program(r *explore.Run, p *wgen.F5Program) {
 		r.Violate(explore.Violation{Key: key, Detail: class + ": " + detail + "\nprogram " + p.Sig, Replay: map[string]any{"sig": p.Sig, "src": p.Src}})
 	}
 	count := func() { r.Count("evaluations", 1) }
-	c17SPIRV(p, m, spirv.Version1_1, fail, count)
-	c17SPIRV(p, m, spirv.Version1_4, fail, count)
+	c17SPIRV(p, m, spirv.Version1_1, fail, count, nil)
+	c17SPIRV(p, m, spirv.Version1_4, fail, count, nil)
 	c17HLSL(p, m, false, fail, count)
 	c17HLSL(p, m, true, fail, count)
 	c17MSL(p, m, fail, count)
@@ -610,6 +652,17 @@ func runC17() int {
 	progs := wgen.F5Programs(r.Thorough())
 	r.Count("programs", int64(len(progs)))
 	r.ParallelFor(len(progs), func(i int) { c17Program(r, progs[i]) })
+	rprogs := c17ReflSelect(progs, r.Thorough())
+	r.Extra("reflection_sweep_programs", len(rprogs))
+	r.ParallelFor(len(rprogs), func(i int) { c17ReflProgram(r, rprogs[i]) })
+	xprogs := wgen.F5XPrograms(r.Thorough())
+	r.Count("programs", int64(len(xprogs)))
+	r.Extra("attribute_order_programs", len(xprogs))
+	r.ParallelFor(len(xprogs), func(i int) { c17XProgram(r, xprogs[i]) })
+	eps := wgen.F5EPModules()
+	r.Count("programs", int64(len(eps)))
+	r.Extra("entry_point_map_modules", len(eps))
+	r.ParallelFor(len(eps), func(i int) { c17EPModule(r, eps[i]) })
 	if len(progs) > 0 {
 		p := progs[len(progs)/2]
 		r.Sample(map[string]any{"program": p.Sig, "source": p.Src})
@@ -618,7 +671,10 @@ func runC17() int {
 	_ = sk
 	sort.Strings(sk)
 	printKeys(r)
-	return r.Finish("F5 interface programs: every multiset of 3 resource kinds out of {uniform, storage ro/rw, sampled/depth/storage texture, sampler, comparison sampler} x 5 stage combinations (1-4 entry points) x use-subsets per entry point (all 64 pairs in the thorough tier, a fixed third plus the all/none rows in the quick tier) x 2 IO signatures per stage (bare parameters and structs; builtins; locations 0,1,2,15; every interpolation/sampling attribute; invariant) x shared/unshared bindings x direct/helper-routed use. An interface model computed by the generator is compared with: SPIR-V 1.1 and 1.4 decorations, storage classes, access modes, execution models/modes and OpEntryPoint interface lists (both directions: nothing missing, nothing invented); HLSL registers/spaces under the default and an explicit binding map; MSL [[buffer(n)]] slots, address spaces and constness under a per-entry-point resource map; GLSL layout(binding) under a binding map, per-entry-point block elimination and the Uniforms reflection against the declared blocks; reflection entry-point names against the functions present. distinct = resource-kind x stage combinations",
+	return r.Finish("F5 interface programs: every multiset of 3 resource kinds out of {uniform, storage ro/rw, sampled/depth/storage texture, sampler, comparison sampler} x 5 stage combinations (1-4 entry points) x use-subsets per entry point (all 64 pairs in the thorough tier, a fixed third plus the all/none rows in the quick tier) x 2 IO signatures per stage (bare parameters and structs; builtins; locations 0,1,2,15; every interpolation/sampling attribute; invariant) x shared/unshared bindings x direct/helper-routed use. An interface model computed by the generator is compared with: SPIR-V 1.1 and 1.4 decorations, storage classes, access modes, execution models/modes and OpEntryPoint interface lists (both directions: nothing missing, nothing invented); HLSL registers/spaces under the default and an explicit binding map; MSL [[buffer(n)]] slots, address spaces and constness under a per-entry-point resource map; GLSL layout(binding) under a binding map, per-entry-point block elimination and the Uniforms reflection against the declared blocks; reflection entry-point names against the functions present. "+
+		"ATTRIBUTE ORDER (F5X): one IO item (vertex output + fragment input) x every legal @interpolate(type[, sampling]) x 8 types x {member of separate structs, member of one struct shared by both stages, bare parameter, struct + bare parameter mixed} x {none, @size, @align, @size+@align} x first/last member x ALL permutations of the attribute list; vertex inputs and fragment outputs (member/bare) x permutations; both members of a dual-source struct x all permutations of [@location, @blend_src, extras] (24x24 product reduced to 3 diagonals in the quick tier); @builtin(position) @invariant x permutations (vertex output, fragment input, bare and member); every builtin as a struct member x extras x permutations; @group/@binding in both orders for all 8 resource kinds, @compute/@workgroup_size in both orders (1-3 arguments, literals and const-expressions), a @must_use helper: each compared with the interface model in SPIR-V 1.1/1.4 (Location, Index, Flat/NoPerspective/Centroid/Sample, Invariant, BuiltIn), HLSL (semantics by index, SV_ system values, SV_TargetN, nointerpolation/noperspective/centroid/sample, numthreads, vertex-output/fragment-input semantic agreement), MSL (stage keyword, [[attribute(n)]], [[user(..n)]], [[color(n)]] + index(i), builtin attributes, [[invariant]], the seven interpolation attributes, vertex-output/fragment-input user() agreement) and GLSL 330/450/300es/310es (all ten versions in the thorough tier: layout(location[, index]), flat/noperspective/centroid/sample where the version has them, types, `invariant gl_Position`, local_size, varyings link by location or by name; nothing missing, nothing invented). "+
+		"PER-ENTRY-POINT OPTIONS (F5EP): 15 modules of 2-3 entry points (5 stage sets x 3 use patterns over a pool of 6 resources) x every order of the entry points in the source x every assignment of {explicit resource map, no map} x FakeMissingBindings on/off x {complete, sparse} maps: the MSL argument slots of an entry point equal its own map entry, equal those of the same entry point compiled alone with the same entry (nothing leaks between entry points), never collide, and the module fails to compile exactly when one entry point alone does; every order also against the interface model in SPIR-V, HLSL, MSL, GLSL. "+
+		"REFLECTION (F5 programs with unshared bindings and an all-using entry point; both IO variants and the thorough use-subset rows in the thorough tier) x all ten GLSL versions x {no map, binding map}: every Uniforms entry names a declared block of the reported kind (uniform vs buffer: IsStorage) and a buffer the entry point uses, every declared block is reported exactly once, block kind follows the WGSL address space where the version has buffer blocks, layout(binding) follows the map where the version has it, TextureMappings/TextureSamplerPairs name declared opaque uniforms with bindings of a used texture/sampler and cover every sampled pair, entry-point names exist; HLSL RegisterBindings against the declared registers in both directions; MSL EntryPointNames, stage keywords, SizesBuffer slot and RequiresSizesBuffer against the extra buffer argument. distinct = resource-kind x stage combinations + attribute-order construct classes + F5EP modules",
 		[]string{"the interface model is computed from the generator's own description of the program (static use through the call graph), not from naga",
 			"MSL vertex/fragment argument attributes and GLSL in/out location qualifiers are not modelled (documented limit); samplers in HLSL go through naga's sampler heap and are not checked"})
 }
